@@ -24,6 +24,9 @@ func VerifCheck_conc() {
 			rs[k] = verifRuneIn("g"+strconv.Itoa(i)+"_"+strconv.Itoa(k), 0, 127)
 		}
 		txts[i] = string(rs)
+		if ft := verifParam("text"); ft != "" {
+			txts[i] = ft + txts[i] // a concrete run in front of the symbolic runes (patterns that need long texts)
+		}
 	}
 	res := make([]verifOpResult, len(ops))
 	verifConcurrent(verifParamInt("preempt"), true, func() {
